@@ -269,7 +269,12 @@ func c06Engine(c *Ctx, syms []c06Sym, set []int) (evals int64) {
 			}
 			l1 := &filterlist.StringRuleList{ID: 1, RulesText: joinLines(lines[:split]) + "\n"}
 			l2 := &filterlist.StringRuleList{ID: 2, RulesText: joinLines(lines[split:]) + "\n"}
-			st, err := filterlist.NewRuleStorage([]filterlist.RuleList{l1, l2})
+			all := []filterlist.RuleList{l1, l2}
+			if (split+len(lines))%2 == 1 {
+				// every other arrangement: a list without rules between the two
+				all = []filterlist.RuleList{l1, &filterlist.StringRuleList{ID: 0, RulesText: "! nothing here\n"}, l2}
+			}
+			st, err := filterlist.NewRuleStorage(all)
 			if err != nil {
 				panic(HarnessError(err.Error()))
 			}
